@@ -133,18 +133,16 @@ def _(value: complex):
 
 
 def sort_set_values(set_values):
-    is_sorted = False
+    # start with the order of the generated code, which does not depend on the
+    # hash seed: `<` is no total order for every type (sets compare as subsets)
+    # and the result of sorted() depends on the order of its input in this case
+    set_values = sorted(set_values, key=repr)
     try:
         set_values = sorted(set_values)
-        is_sorted = True
     except TypeError:
         pass
 
-    set_values = list(map(repr, set_values))
-    if not is_sorted:
-        set_values = sorted(set_values)
-
-    return set_values
+    return list(map(repr, set_values))
 
 
 @customize_repr
